@@ -122,6 +122,13 @@ def gen_case(rng):
             kind = 'tup'
         else:
             ops.append(['buffer', rng.choice([1, 2, 5])])
+    if not two and rng.random() < 0.15:
+        # per-element chains decoupled by a buffer in front of gather(): only the references the nodes pass on keep an input
+        # from being signalled complete while its result is still on its way
+        ops = [['map', 'pair'], ['starmap', 'sm']] if rng.random() < 0.6 else [['map', rng.choice(['inc', 'dbl'])]]
+        if rng.random() < 0.5:
+            ops.append(['map', 'inc'])
+        ops.append(['buffer', rng.choice([2, 5])])
     n = rng.randrange(3, 15)
     inputs, lead = [], 0
     for _ in range(n):
@@ -138,10 +145,20 @@ def gen_case(rng):
 
 
 class Got(list):
-    """results in the order in which the consumer finished with them; .called: in the order in which it was handed them"""
+    """results in the order in which the consumer finished with them; .called: in the order in which it was handed them;
+    .timeline: consumer completions ('DONE') and completion signals of the inputs (('T', uid)) in the order they happened"""
     def __init__(self):
         super().__init__()
         self.called = []
+        self.timeline = []
+
+    def append(self, x):
+        self.timeline.append('DONE')
+        list.append(self, x)
+
+    def add(self, kind, uid, what, *rest):          # the recorder interface ProbeRef writes to
+        if what == 'trigger':
+            self.timeline.append(('T', uid))
 
 
 def make_sink(case, got):
@@ -224,7 +241,7 @@ async def run_local(case):
     a, b = _build_local_async(case, make_sink(case, got))
     refs = []
     for k, (e, v) in enumerate(case['inputs']):
-        ref = ProbeRef('l%d' % k, None, IOLoop.current())
+        ref = ProbeRef('l%d' % k, got, IOLoop.current())
         refs.append(ref)
         await (a if e == 0 else b).emit(v, metadata=[{'ref': ref}])
     n = -1
@@ -285,7 +302,7 @@ async def run_dask(case, expect_n, patient=False, expect_counts=None):
     a, b = build(case, True, make_sink(case, got))
     refs = []
     for k, (e, v) in enumerate(case['inputs']):
-        ref = ProbeRef('d%d' % k, None, IOLoop.current())
+        ref = ProbeRef('d%d' % k, got, IOLoop.current())
         refs.append(ref)
         await (a if e == 0 else b).emit(v, metadata=[{'ref': ref}])
     t0 = t_last = time.time()
@@ -364,6 +381,20 @@ async def shard_main(seed, tier, shard, out):
                                                   % (lr.uid, lr.count, lr.triggers, bool(lr.retain_after_trigger), dr.count, dr.triggers,
                                                      bool(dr.retain_after_trigger), case['ops']), 'case': case})
                         break
+            if ln == dn and not case['two_entries'] and all(op[0] in ('map', 'starmap', 'buffer') for op in case['ops']):
+                # one result per input, in order: the k-th input is complete when all consumers have finished with the k-th result
+                fan, done = case.get('fanout', 1), 0
+                for ev in dgot.timeline:
+                    if ev == 'DONE':
+                        done += 1
+                    else:
+                        k_in = int(ev[1][1:])
+                        C['dask_signals_checked_against_consumer_completion'] = C.get('dask_signals_checked_against_consumer_completion', 0) + 1
+                        if done < (k_in + 1) * fan:
+                            out['violations'].append({'key': 'C20:signal-before-consumer-end@dask', 'case': case,
+                                                      'what': 'dask twin: the completion signal of input %d was given when only %d of the '
+                                                              'consumer calls had finished (%d needed); ops %s' % (k_in, done, (k_in + 1) * fan, case['ops'])})
+                            break
             if len(lgot) >= 3:
                 out['keys'].append(progs.prog_key(case, None))
             if case.get('sink') == 'coro':
